@@ -33,7 +33,10 @@ type c17Case struct {
 	// Prior: if non-empty, additionally a sharder is started on Prior+[own] and
 	// then updated to a permutation of Peers through the peers callback.
 	Prior    []string `json:"prior,omitempty"`
-	TraceIDs []string `json:"trace_ids"`
+	TraceIDs []string `json:"trace_ids,omitempty"`
+	// Cluster: if set, the case is an in-process cluster history (part 2) and
+	// the fields above are unused.
+	Cluster *c17Cluster `json:"cluster,omitempty"`
 }
 
 var c17Hosts = []string{
@@ -76,8 +79,22 @@ func genC17TraceID(t *rapid.T) string {
 	}
 }
 
+// c17ClusterOneIn: one generated case in N is a cluster history (wall-clock
+// based and ~100x more expensive than a function-level case).
+func c17ClusterOneIn() int {
+	if vkit.Thorough() {
+		return 12
+	}
+	return 40
+}
+
 func genC17(t *rapid.T) c17Case {
 	var c c17Case
+	// (modulo of a wide draw: rapid's IntRange is biased towards the bounds)
+	if n := uint64(c17ClusterOneIn()); rapid.Uint64().Draw(t, "iscluster")%n == n/2 {
+		c.Cluster = genC17Cluster(t)
+		return c
+	}
 	// sizes: bias to the exhaustively permuted ones, but cover up to 12
 	n := rapid.SampledFrom([]int{1, 2, 2, 3, 3, 4, 4, 5, 5, 6, 7, 8, 9, 10, 11, 12}).Draw(t, "n")
 	c.Peers = rapid.SliceOfNDistinct(rapid.Custom(genC17Addr), n, n, rapid.ID[string]).Draw(t, "peers")
@@ -160,6 +177,10 @@ func c17ValidPerm(p []int, n int) bool {
 
 func execC17(c c17Case) vkit.Result {
 	var res vkit.Result
+	if c.Cluster != nil {
+		execC17Cluster(c.Cluster, &res)
+		return res
+	}
 	n := len(c.Peers)
 	if n == 0 || len(c.TraceIDs) == 0 {
 		res.Class("empty-case")
@@ -266,12 +287,21 @@ func execC17(c c17Case) vkit.Result {
 			}
 			// reference for this sub-check is node 0's own view of the same file
 			if k == 0 {
+				differs := false
 				for i, tid := range c.TraceIDs {
 					a := s.WhichShard(tid).GetAddress()
 					if !member[a] {
 						res.Violate("C17/fn/dupself/owner-not-member", "list=%q trace=%q owner=%q", list, tid, a)
 					}
+					if a != want[i] {
+						differs = true
+					}
 					want[i] = a
+				}
+				if differs {
+					// not asserted: a list with a duplicated address is a different
+					// list (the partition count follows the list length)
+					res.Class("dont-care:owner-differs-between-list-and-list+self")
 				}
 				continue
 			}
@@ -315,7 +345,7 @@ func execC17(c c17Case) vkit.Result {
 func TestC17(t *testing.T) {
 	vkit.Run(t, vkit.Spec[c17Case]{
 		ID:   "C17",
-		Rule: "function level: rapid-generated lists of 1..12 distinct peer URLs and 1..24 trace ids; a DeterministicSharder (real code, MockPeers) is built for EVERY permutation of the list when n<=5 (sampled permutations above) x every member as own address, plus the FilePeers shape list+[self] and the start-on-other-list-then-UpdatePeers path; each must name the same owner as the reference sharder, the owner must be a member, and MyShard().Equals(owner) must hold exactly on the owner. Non-trivial: >=2 peers and >=2 sharders compared. Cluster level (thorough, and a small dose in quick via TestC17Cluster cases): see c17_cluster_test.go. Distinct = distinct case JSON.",
+		Rule: "function level: rapid-generated lists of 1..12 distinct peer URLs and 1..24 trace ids; a DeterministicSharder (real code, MockPeers) is built for EVERY permutation of the list when n<=5 (sampled permutations above) x every member as own address, plus the FilePeers shape list+[self] and the start-on-other-list-then-UpdatePeers path; each must name the same owner as the reference sharder, the owner must be a member, and MyShard().Equals(owner) must hold exactly on the owner. Non-trivial: >=2 peers and >=2 sharders compared. Cluster level (roughly 1 case in 40 in thorough, 1 in 150 in quick): 2-3 real refinery apps in-process (FilePeers on loopback, file lists in generated per-node orders, with or without self), spans of generated traces posted to generated entry nodes via /1/batch and /1/events; every accepted span must come out upstream exactly once, on the node a harness-owned reference sharder names, after <=1 hand-over to a peer transmission, never addressed to the forwarding node itself; non-trivial there: >=1 span entered at a non-owner. Distinct = distinct case JSON.",
 		Assumptions: []string{
 			"peer.MockPeers stands in for the membership source (the sharder only calls GetPeers/GetInstanceID/RegisterUpdatedPeersCallback)",
 			"two sharders are 'nodes that see the same list' when the multiset of addresses is equal; the FilePeers shape list+[self] (same set, own address twice) is also treated as the same list because that is what every node of a file-configured cluster sees",
